@@ -36,7 +36,7 @@ Accepts(allow, outcome, empty) ==
   \/ outcome = "ok" /\ (allow = "any" \/ (allow = "err-or-empty" /\ empty))
 
 \* (n <= 40 for the exhaustive sizes; the deep members are linear-time or refused)
-MaxMs(fam, n) == IF n <= 100 THEN 1000 + n * n ELSE 4000
+MaxMs(fam, n) == IF n <= 100 THEN 1000 + n * n ELSE IF n <= 20000 THEN 4000 ELSE 10000
 
 (***************************************************************************)
 (* Hostile families                                                        *)
